@@ -898,6 +898,10 @@ class Translator:
             return cont(c)
         if isinstance(s, ast.Pass):
             return cont(c)
+        if isinstance(s, ast.Expr) and isinstance(s.value, ast.Call) and isinstance(s.value.func, ast.Attribute) \
+                and isinstance(s.value.func.value, ast.Name) and s.value.func.value.id in ("logger", "logging") \
+                and not any(isinstance(x, (ast.Await, ast.NamedExpr)) for x in ast.walk(s)):
+            return cont(c)      # logging has no effect on what the function computes
         if isinstance(s, ast.Return):
             if s.value is None:
                 return self.result(c, "()")
